@@ -172,6 +172,7 @@ func runC17(p *core.Prog, r *core.Report) {
 	c17R8(p, r)
 	c17R9(p, r)
 	c17R11(p, r)
+	c17R12(p, r)
 	c17R10(p, r)
 }
 
@@ -1534,5 +1535,44 @@ func c17R11(p *core.Prog, r *core.Report) {
 	}
 	if n == 0 {
 		r.MissingAnchor(rule, "reghttp Do calls in scheme/reg")
+	}
+}
+
+// ---------------------------------------------------------------------------------------------
+// R12 no waiting for a slot while holding the layout's mutex
+
+// c17R12: every holder of a layout's write slot needs the layout mutex (index and bookkeeping
+// updates) before it can finish and give the slot back. A caller that waits for a slot with that
+// mutex held is never admitted once the queue is full: the whole layout hangs.
+func c17R12(p *core.Prog, r *core.Report) {
+	const rule = "C17.R12"
+	r.Rule(rule, "no hold-and-wait between the layout mutex and its throttle: in scheme/ocidir a blocking Acquire / AcquireMulti of a request queue is made with the OCIDir mutex not held (must-hold lockset, helpers that run under their caller's lock included)", 1)
+	li, _ := ocidirLockInfo(p)
+	if li == nil {
+		r.MissingAnchor(rule, ocidirRel+".OCIDir mutex")
+		return
+	}
+	n := 0
+	for _, fn := range pkgFuncs(p, ocidirRel) {
+		lab := labeler{}
+		core.Calls(fn, func(c ssa.CallInstruction) {
+			cal := core.Callee(c)
+			if cal == nil || cal.Pkg() == nil || cal.Pkg().Path() != modPath(pqRel) {
+				return
+			}
+			if cal.Name() != "Acquire" && cal.Name() != "AcquireMulti" {
+				return
+			}
+			if _, isCall := c.(*ssa.Call); !isCall {
+				return
+			}
+			n++
+			st := li.StateAt(c.(ssa.Instruction))
+			r.Check(st == core.LNotHeld || st == core.LUnreached, rule, p.FuncName(fn), lab.next("waits for a slot"), p.Pos(c.Pos()),
+				"the layout mutex is "+st.String()+" at this blocking acquire: the holders of the slots need that mutex to finish and release, so a waiter that holds it is never admitted")
+		})
+	}
+	if n == 0 {
+		r.MissingAnchor(rule, "blocking acquires in "+ocidirRel)
 	}
 }
